@@ -894,3 +894,68 @@ Section Built.
     - inversion Q as [|t0 t' ts0 ts' Ht Hts]; subst. constructor; [eapply built_eqv; eassumption|now apply IH].
   Qed.
 End Built.
+
+(* ------------------------------------------------------------------ *)
+(* The other direction: a canonical dict list (exactly the entries to_dict
+   writes: "data" a string the deserialisation step reads back under that name,
+   "data_id" only when it is not the default, "children" only when non-empty)
+   is reproduced by to_dict_list(from_dict(obj)). *)
+Section Canonical.
+  Variable dd : dmapper.
+
+  Inductive canon : jv -> Prop :=
+  | canon_item : forall s i idpart chpart,
+      dd (Some (JStr s)) = inl i -> i_name i = s ->
+      (idpart = [] \/ exists dv, idpart = [(k_data_id, jv_of_did dv)] /\ dv <> DInt (i_hash i)) ->
+      (chpart = [] \/ exists c cs, chpart = [(k_children, JList (c :: cs))] /\ Forall canon (c :: cs)) ->
+      canon (JDict ([(k_data, JStr s)] ++ idpart ++ chpart)).
+
+  Lemma canon_back : forall t j, canon j -> built dd default_did (parse j) t -> to_dict sm_none t = j.
+  Proof.
+    induction t as [id i ch IH] using rt_ind'. intros j C B.
+    inversion C as [s i0 idpart chpart Ed En Hid Hch]; subst j.
+    rewrite parse_dict in B.
+    inversion B as [d0 k0 i1 dv id1 ch1 E1 E2 F]; subst.
+    change ([(k_data, JStr (i_name i0))] ++ idpart ++ chpart) with ((k_data, JStr (i_name i0)) :: idpart ++ chpart) in *.
+    assert (Gd : dget k_data ((k_data, JStr (i_name i0)) :: idpart ++ chpart) = Some (JStr (i_name i0))) by reflexivity.
+    rewrite Gd, Ed in E1. injection E1 as <-.
+    rewrite to_dict_plain_exact. cbn [i_name i_did i_hash mk_info]. apply f_equal.
+    change ([(k_data, JStr (i_name i0))] ++ ?x) with ((k_data, JStr (i_name i0)) :: x). apply f_equal.
+    assert (Kids : kids_of ((k_data, JStr (i_name i0)) :: idpart ++ chpart) =
+                   match chpart with [(_, JList l)] => l | _ => [] end).
+    { unfold kids_of. destruct Hid as [->|(dv0 & -> & _)]; destruct Hch as [->|(c & cs & -> & _)]; reflexivity. }
+    assert (Gid : dget k_data_id ((k_data, JStr (i_name i0)) :: idpart ++ chpart) =
+                  match idpart with [(_, v)] => Some v | _ => None end).
+    { destruct Hid as [->|(dv0 & -> & _)]; destruct Hch as [->|(c & cs & -> & _)]; reflexivity. }
+    rewrite Gid in E2. rewrite Kids in F.
+    apply f_equal2.
+    - destruct Hid as [->|(dv0 & -> & Hne)].
+      + cbn [did_for] in E2. injection E2 as <-. unfold default_did. now rewrite did_eqb_refl.
+      + rewrite did_for_of_did in E2. injection E2 as <-.
+        destruct (did_eqb dv0 (DInt (i_hash i0))) eqn:Eq; [apply did_eqb_eq in Eq; contradiction|reflexivity].
+    - destruct Hch as [->|(c & cs & -> & Fc)].
+      + inversion F; subst. reflexivity.
+      + assert (ML : forall items ch0,
+                   Forall (fun t => forall j, canon j -> built dd default_did (parse j) t -> to_dict sm_none t = j) ch0 ->
+                   Forall canon items -> Forall2 (built dd default_did) (map parse items) ch0 ->
+                   map (to_dict sm_none) ch0 = items).
+        { induction items as [|x xs IHx]; intros ch0 H0 Fc0 F0.
+          - inversion F0; subst. reflexivity.
+          - cbn [map] in F0. inversion F0 as [|p t ps ts Hpt Hps]; subst.
+            inversion Fc0 as [|x0 xs0 Cx Cxs]; subst. inversion H0 as [|t0 ts0 Ht Hts]; subst.
+            cbn [map]. f_equal; [now apply Ht|now apply IHx]. }
+        pose proof (ML (c :: cs) ch IH Fc F) as M.
+        destruct ch as [|c1 cs1]; [discriminate M|]. now rewrite M.
+  Qed.
+
+  Theorem canonical_roundtrip next obj f :
+    Forall canon obj -> from_dict dd default_did next obj = inl f -> to_dict_list sm_none f = obj.
+  Proof.
+    intros C E. apply from_dict_built in E. unfold to_dict_list.
+    revert f E. induction C as [|j js Cj _ IH]; intros f E.
+    - inversion E; subst. reflexivity.
+    - cbn [map] in E. inversion E as [|p t ps ts Hpt Hps]; subst. cbn [map]. f_equal.
+      + now apply canon_back.
+      + now apply IH.
+  Qed.
+End Canonical.
